@@ -468,7 +468,49 @@ def run_intervals(ctx, report, case, compare_model=True):
                     if not same_arrays(np.array(want, dtype=np.float32), after["confidence_measure"][:, :, idx[n]]):
                         report.disagree(f"intervals.regularized_band[{n}]", case, "differs",
                                         "interval_regularization(model median of the bands)")
+                # the whole step in the composed model (Model/FilterIntervals.lean: C10's filter/flag model with C12's
+                # interval_regularization model as the producer of the bands *and* of mask_regularization)
+                compare_step(ctx, report, case, cfg, before, after, idx, (n_inf, n_sup, n_amb), reg, fl_j, out_mask, 0, tag)
+                if step == 0 and ny >= 3 and nx >= 3 and ny * nx <= 400:
+                    # the same step on a dataset whose offset_row_col is 1: mask_border after the |=
+                    ds1 = fl.make_disp(before["disparity_map"], before["validity_mask"], before["confidence_measure"], names)
+                    ds1.attrs["offset_row_col"] = 1
+                    b1 = fl.observe(ds1)
+                    try:
+                        fl.run_filter(ds1, cfg)
+                    except Exception as exc:  # pylint: disable=broad-except
+                        report.fail("bit11_only", f"intervals_offset_raises_{type(exc).__name__}", case,
+                                    {"exception": f"{type(exc).__name__}: {exc}"}, "the filter step raised with offset_row_col = 1")
+                    else:
+                        a1 = fl.observe(ds1)
+                        compare_step(ctx, report, case, cfg, b1, a1, idx, (n_inf, n_sup, n_amb), None,
+                                     b1["validity_mask"].astype(int).tolist(), a1["validity_mask"].astype(int).tolist(), 1,
+                                     tag + ", offset_row_col=1")
     return stats
+
+
+def compare_step(ctx, report, case, cfg, before, after, idx, bands, reg, fl_j, out_mask, offset, tag):
+    """model of the whole regularising step vs the implementation: mask_regularization (when observed), validity mask, and —
+    where the quantile arithmetic is exact in floating point (quantile 1 or 0.5 on halves) — the two final bands"""
+    n_inf, n_sup, n_amb = bands
+    ny, nx, fs = case["ny"], case["nx"], case["fs"]
+    q = float(cfg["quantile_regularization"])
+    res = ctx.lean.call("C10.intervals_step", ny=ny, nx=nx, split=split_for("median", fs), bit=BIT11, offset=offset, fs=fs,
+                        regularization=True, threshold=core.enc(Fraction(float(cfg["ambiguity_threshold"]))),
+                        kernel=int(cfg["ambiguity_kernel_size"]), depth=int(cfg["vertical_depth"]), quantile=core.enc(Fraction(q)),
+                        inf=enc_arr(before["confidence_measure"][:, :, idx[n_inf]]),
+                        sup=enc_arr(before["confidence_measure"][:, :, idx[n_sup]]),
+                        amb=enc_arr(before["confidence_measure"][:, :, idx[n_amb]]), flags=fl_j)
+    report.count("intervals_step_model_compared" + ("_offset" if offset else ""))
+    if reg is not None and res["reg"] != np.array(reg, dtype=bool).tolist():
+        report.disagree("intervals.mask_regularization", case, np.array(reg, dtype=int).tolist(), res["reg"])
+    if res["flags"] != out_mask:
+        report.disagree("intervals.step_validity_mask" + ("_offset" if offset else ""), case, out_mask, res["flags"])
+    if q in (1.0, 0.5):
+        for n, got in ((n_inf, res["inf"]), (n_sup, res["sup"])):
+            if got != enc_arr(after["confidence_measure"][:, :, idx[n]]):
+                report.disagree(f"intervals.step_band[{n}]", case, enc_arr(after["confidence_measure"][:, :, idx[n]]), got)
+        report.count("intervals_step_bands_compared")
 
 
 def gen_exhaustive_tiles(start, count):
